@@ -214,6 +214,9 @@ extern "C" pid_t waitpid(pid_t pid, int* status, int options) {
   const pid_t r = real_waitpid(pid, status, options);
   int e = errno;
   {
+    // taken after the call: an ECHILD answer means that the reaping waitpid(WNOHANG) has returned,
+    // i.e. the handler is inside (or past) its own log section; waiting for it orders the lines
+    LogSection ls;
     char* p = put_str(buf, "W ");
     p = put_int(p, pl->thread);
     *p++ = ' ';
